@@ -415,6 +415,35 @@ def check(case):
             case.close(np.asarray(out, dtype=float), want, rtol=1e-6, atol=1e-9,
                        what='outputs after the second fix_parameters call')
 
+    # the outputs are selected again AFTER sensitivities were enabled (on the reduced model, too): whatever
+    # has_sensitivities() then reports, simulate answers accordingly, with one column per FREE parameter
+    if s['sens'] and s['outputs'] is not None and not (s['rename'] and s['rename']['outputs']):
+        with case.clause('outputs_after_sensitivities'):
+            obj.enable_sensitivities(True)
+            outs2 = list(reversed(outputs))
+            obj.set_outputs(list(outs2))
+            case.equal(obj.outputs(), outs2, 'outputs after selecting them again with sensitivities enabled')
+            want2 = np.real(sbmlgen.ref_simulate(ms, full(theta[free]), times, outs2, admin, events))
+            res = obj.simulate(theta[free].copy(), times.copy())
+            if obj.has_sensitivities():
+                case.true(isinstance(res, tuple) and len(res) == 2, 'has_sensitivities() is True after set_outputs, '
+                          'but simulate returns no sensitivities', kind='type')
+                out, sens = res
+                sens = np.asarray(sens, dtype=float)
+                case.equal(sens.shape, (len(times), len(outs2), len(free)),
+                           'sensitivity shape after set_outputs on a model with enabled sensitivities', kind='shape')
+                ws = _cgrad_outputs(lambda z: sbmlgen.ref_simulate(ms, full(z), times, outs2, admin, events), theta[free])
+                case.close(sens, ws, rtol=1e-5, atol=1e-8, what='d output / d (free) parameter after set_outputs on a '
+                           'model with enabled sensitivities')
+            else:
+                case.true(not isinstance(res, tuple), 'has_sensitivities() is False after set_outputs, but simulate '
+                          'returns a tuple', kind='type')
+                out = res
+            case.close(np.asarray(out, dtype=float), want2, rtol=1e-6, atol=1e-9,
+                       what='outputs after selecting them again with sensitivities enabled')
+            obj.set_outputs(list(outputs))
+            obj.enable_sensitivities(False)
+
     # a whole-number free vector typed as integers (list of Python ints, int array) is the same vector
     with case.clause('integer_vector'):
         th_i = theta.copy()
